@@ -20,7 +20,7 @@ regex.py
   `ExpressionVector` (`Vec`: names are numbers) literally.
 compiler.py
 * `compile` ↦ `compileWith`: the work list is a Python list used as a stack (`stack.pop()` takes the
-  LAST element ↦ head of `stack`), `state_numbers` is a dict from state to number ↦ `List.idxOf` in
+  LAST element ↦ head of `stack`), `state_numbers` is a dict from state to number ↦ `indexOf` in
   `states`; `transitions[n].sort()` sorts 3-tuples lexicographically ↦ insertion sort `sortT`
   (for a total order every sorting algorithm returns the same list).  The `while` loop is unbounded:
   `fuel` bounds the number of states taken from the stack, `Err.Fuel` = "does not return"
@@ -170,6 +170,17 @@ def sortT : List Trans → List Trans
   | [] => []
   | x :: t => insertT x (sortT t)
 
+/-- `state_numbers[x]`: the position of `x` in `states` -/
+def indexOf {σ : Type} [DecidableEq σ] (x : σ) : List σ → Nat
+  | [] => 0
+  | y :: t => if y = x then 0 else indexOf x t + 1
+
+/-- `l[n] = f(l[n])` -/
+def modifyAt {α : Type} (f : α → α) : Nat → List α → List α
+  | _, [] => []
+  | 0, a :: t => f a :: t
+  | n + 1, a :: t => a :: modifyAt f n t
+
 structure CState (σ : Type) where
   states : List σ
   trans : List (List Trans)
@@ -187,14 +198,14 @@ def classStep {σ : Type} [DecidableEq σ] (O : Ops σ) (state : σ) (n : Nat) (
   | (first, _) :: _ =>
     let next := O.deriv state first             -- symbol = derivative_class.ranges[0][0]
     let st := if next ∈ st.states then st else addState st next
-    let m := st.states.idxOf next
-    { st with trans := st.trans.modify n (fun ts => ts ++ K.map fun r => (r.1, r.2, m)) }
+    let m := indexOf next st.states
+    { st with trans := modifyAt (fun ts => ts ++ K.map fun r => (r.1, r.2, m)) n st.trans }
 
 /-- body of the `while stack` loop after `state = stack.pop()` -/
 def processState {σ : Type} [DecidableEq σ] (O : Ops σ) (root : σ) (st : CState σ) (state : σ) : CState σ :=
-  let n := st.states.idxOf state
+  let n := indexOf state st.states
   let st := (O.classes state).foldl (classStep O state n) st
-  let st := { st with trans := st.trans.modify n sortT }
+  let st := { st with trans := modifyAt sortT n st.trans }
   -- the error state must have a number even when it is not reachable
   if st.stack.isEmpty ∧ O.null root ∉ st.states then addState st (O.null root) else st
 
@@ -220,7 +231,7 @@ def compileWith {σ α : Type} [DecidableEq σ] (O : Ops σ) (acc : σ → α) (
   | none => .error .Fuel
   | some st =>
     if O.null root ∈ st.states then
-      .ok { trans := st.trans, accepts := st.states.map acc, error := st.states.idxOf (O.null root) }
+      .ok { trans := st.trans, accepts := st.states.map acc, error := indexOf (O.null root) st.states }
     else .error .KeyError                       -- `state_numbers[expr.null]`
 
 /-- `compile(expr)` for a `Regex` -/
